@@ -117,6 +117,15 @@ def ob_validated_min(arg_pred):
     return ob_sep(succ_fact(lambda t: is_call(t, name="validate_num_of_signers") and arg_pred(t[2][0])))
 
 
+def ob_exact_sum(ctx, f, v, blocks):
+    enc_len = lambda of: length(lambda t: mentions(t, lambda s: is_call(s, name="serialize") and any(mentions(x, lambda u: is_call(u, name=of)) for x in s[2])))
+    return exact_length(ctx.prog, f, set(blocks), arg(1), sum_of=(enc_len("generator"), enc_len("zero"))) is not None
+
+
+def ob_exact(n):
+    return lambda ctx, f, v, blocks: exact_length(ctx.prog, f, set(blocks), arg(1), const_n=n) is not None
+
+
 def ob_commit(ctx, f, v, blocks):
     # preprocess(1, ..) and preprocess pushes one pair per iteration of 0..num_nonces
     ok = all(mentions(a, lambda s: is_call(s, name="preprocess") and const(1)(s[2][0]))
@@ -179,8 +188,7 @@ def reason(r):
 REVIEWED = {
     # --- frost-core: decoding / protocol steps on untrusted input
     ("signature::Signature::<C>::default_deserialize", "assert:overflow:Add"): (2, "R_len + z_len: lengths of the ciphersuite's fixed-size encodings (type-level constants <= 114)", None),
-    ("signature::Signature::<C>::default_deserialize", "call:slice::copy_from_slice"): (2, "source is bytes.get(0..R_len) / get(R_len..R_len+z_len) (Some => exactly that many bytes), destination is the fixed-size buffer of the same length", ob_sep(
-        cmp_fact("eq", length(arg(1)), lambda t: t[0] == "bin" and t[1] == "Add", False))),
+    ("signature::Signature::<C>::default_deserialize", "call:slice::copy_from_slice"): (2, "sources are the first R_len / the following z_len bytes of an input of exactly R_len + z_len bytes, destinations the fixed-size buffers of those lengths", ob_exact_sum),
     ("signature::Signature::<C>::default_serialize", "assert:overflow:Add"): (1, "sum of two fixed-size encoding lengths", None),
     ("keys::VerifiableSecretSharingCommitment::<C>::deserialize_whole", "call:slice::chunks_exact"): (1, "chunk size is the length of the generator's encoding, a non-zero type-level constant", None),
     ("keys::reconstruct", "call:Option::expect"): (1, "min() of a non-empty slice: guarded by the is_empty refusal", ob_sep(cmp_fact("empty", arg(1), None, True), cmp_fact("eq", length(arg(1)), const(0), True))),
@@ -245,10 +253,8 @@ REVIEWED = {
     ("<frost_secp256k1_tr::Secp256K1Sha256TR as frost_core::traits::Ciphersuite>::serialize_signature", "call:Index::index"): (1, "R_bytes[1..] on [u8; 33]", None),
     ("<frost_secp256k1_tr::Secp256K1Sha256TR as frost_core::traits::Ciphersuite>::serialize_signature", "call:slice::copy_from_slice"): (2, "32-byte slices on both sides", None),
     ("<frost_secp256k1_tr::Secp256K1Sha256TR as frost_core::traits::Ciphersuite>::deserialize_signature", "call:IndexMut::index_mut"): (1, "R_bytes[1..] on [u8; 33]", None),
-    ("<frost_secp256k1_tr::Secp256K1Sha256TR as frost_core::traits::Ciphersuite>::deserialize_signature", "call:Index::index"): (2, "bytes[..32] / bytes[32..]: behind the exact-length refusal", ob_sep(
-        cmp_fact("eq", length(arg(1)), const(64), False))),
-    ("<frost_secp256k1_tr::Secp256K1Sha256TR as frost_core::traits::Ciphersuite>::deserialize_signature", "call:slice::copy_from_slice"): (2, "32-byte slices on both sides: behind the exact-length refusal", ob_sep(
-        cmp_fact("eq", length(arg(1)), const(64), False))),
+    ("<frost_secp256k1_tr::Secp256K1Sha256TR as frost_core::traits::Ciphersuite>::deserialize_signature", "call:Index::index"): (2, "bytes[..32] / bytes[32..]: behind the exact-length refusal", ob_exact(64)),
+    ("<frost_secp256k1_tr::Secp256K1Sha256TR as frost_core::traits::Ciphersuite>::deserialize_signature", "call:slice::copy_from_slice"): (2, "32-byte slices on both sides: behind the exact-length refusal", ob_exact(64)),
     ("<frost_core::signing_key::SigningKey<frost_secp256k1_tr::Secp256K1Sha256TR> as frost_secp256k1_tr::keys::EvenY>::into_even_y", "call:Result::expect"): (1, "negation of a non-zero scalar is non-zero (SigningKey is non-zero by construction)", None),
 }
 
@@ -343,6 +349,16 @@ def run(ctx):
                 if edges and not sep(f, edges, {bb}):
                     auto += 1
                     ctx.ok("PANIC-auto", f.key, "%s@behind-its-own-success-test" % k)
+                    continue
+            if k == "call:slice::split_at" and len(a) > 1 and a[1][0] == "const" and isinstance(a[1][2], int):
+                # split_at(const k) on a value whose type fixes its length N >= k: `<&[u8; N]>::try_from(x)` Ok payload / an array
+                recv = a[0]
+                while recv[0] in ("ok", "some"):
+                    recv = recv[1]
+                n_ = array_len_of_type(recv[4] if is_call(recv) and len(recv) > 4 and isinstance(recv[4], str) else "") if is_call(recv, name="try_from") else None
+                if n_ is not None and a[1][2] <= n_:
+                    auto += 1
+                    ctx.ok("PANIC-auto", f.key, "%s@const-index-within-fixed-length" % k)
                     continue
             if k in ("call:Vec::insert",) and len(a) > 1 and const(0)(a[1]):
                 auto += 1
